@@ -261,6 +261,8 @@ pub struct Tok {
     pub kind: TokKind,
     /// statement boundary before this token (rendered as a newline)
     pub newline: bool,
+    /// declaration token of a `local` whose positional initialiser is a bare name (`local g = f`)
+    pub init_is_name: bool,
 }
 
 struct R {
@@ -275,7 +277,7 @@ impl R {
     fn push(&mut self, text: String, kind: TokKind) {
         let newline = self.nl;
         self.nl = false;
-        self.toks.push(Tok { text, kind, newline });
+        self.toks.push(Tok { text, kind, newline, init_is_name: false });
     }
     fn decl(&mut self, n: Name) {
         self.push(name_text(n), TokKind::Decl);
@@ -330,7 +332,15 @@ impl R {
         match s {
             Stat::Local(ns, vals) => {
                 self.t("local");
+                let first = self.toks.len();
                 self.decls(ns);
+                let mut i = 0;
+                for t in self.toks[first..].iter_mut() {
+                    if t.kind == TokKind::Decl {
+                        t.init_is_name = matches!(vals.get(i), Some(Expr::Name(_)));
+                        i += 1;
+                    }
+                }
                 if !vals.is_empty() {
                     self.t("=");
                     self.exprs(vals);
@@ -427,6 +437,8 @@ impl R {
 pub struct Rendered {
     pub text: String,
     pub toks: Vec<(usize, usize, TokKind, String)>, // (model position, byte offset, kind, text)
+    /// model positions of `local` declaration tokens whose positional initialiser is a bare name
+    pub init_is_name: Vec<usize>,
 }
 
 impl Rendered {
@@ -447,6 +459,7 @@ pub fn render(p: &[Stat]) -> Rendered {
     r.block(p);
     let mut text = String::from("\n"); // the chunk's block starts before its first token
     let mut toks = Vec::new();
+    let mut init_is_name = Vec::new();
     let mut i = 0usize;
     for (k, t) in r.toks.iter().enumerate() {
         if k > 0 {
@@ -454,12 +467,15 @@ pub fn render(p: &[Stat]) -> Rendered {
         }
         if t.kind != TokKind::Comma {
             toks.push((2 * i + 2, text.len(), t.kind, t.text.clone()));
+            if t.init_is_name {
+                init_is_name.push(2 * i + 2);
+            }
             i += 1;
         }
         text.push_str(&t.text);
     }
     text.push('\n');
-    Rendered { text, toks }
+    Rendered { text, toks, init_is_name }
 }
 
 // ---------------------------------------------------------------- size and classifiers
